@@ -33,6 +33,8 @@ THEOREMS = [
     "C01_accepted_is_isa", "C01_undefined_rejected", "C01_isa_matrix_wf", "C01_oracle_accept_sound",
     "C01_oracle_reject_sound", "C01_shape_key", "C01_shape",
 ]
+# model-tie modules whose correspondence is part of this property's check (parts of the model its theorems rest on)
+TIES = ['PARSE']
 RULE = ("every mnemonic of the live table x 19 operand shapes (implied, #v, v, v,x v,y v,s (v) (v),y [v] [v],y (v,x) "
         "(v,s),y and 7 malformed index combinations) x suffix {none,.b,.w,.l} x operand {0,0xFF,0x100,0xFFFF,0x10000,"
         "0xFFFFFF,0x1000000, := symbol, expression} x letter case {lower,UPPER,Mixed}; quick: every (mnemonic, shape, "
